@@ -371,3 +371,91 @@ func c20Monitor(run *ev.Run) (func(), func(*wh.Step)) {
 		}
 	}
 }
+
+// flakySigner wraps a witness key; while fail is set its Sign returns an error
+// (a key held by a remote signer / KMS that is unreachable for one call).
+type flakySigner struct {
+	note.Signer
+	fail *bool
+}
+
+func (f flakySigner) Sign(msg []byte) ([]byte, error) {
+	if *f.fail {
+		return nil, fmt.Errorf("verif: signer %s unavailable", f.Name())
+	}
+	return f.Signer.Sign(msg)
+}
+
+// c04SignerFaults: one of the witness's keys fails for one call - first,
+// middle or last in the configured order - during a first use, a growth and a
+// same-size re-submission, both stores. The update may be refused (then
+// nothing changes) or accepted - then the result and the following read carry
+// exactly one valid signature of EVERY configured key.
+func c04SignerFaults(run *ev.Run) {
+	u := uni.New(ev.Seed(), 8, nil)
+	gen := wh.NewCPGen(u)
+	la := wh.LogCfg{Origin: logA() + "/signer-faults", Key: u.K1}
+	keys := []struct {
+		name string
+		s    note.Signer
+		v    note.Verifier
+	}{{"legacy", u.W1.Signer, u.W1.Verif}, {"cosig", u.W1.CosigSigner, u.W1.CosigVerif}, {"cosig2", u.W2.CosigSigner, u.W2.CosigVerif}}
+	for _, store := range []string{"mem", "sql"} {
+		for _, order := range [][]int{{0, 1}, {1, 0}, {0, 1, 2}, {2, 0, 1}} {
+			for failing := range order {
+				for _, step := range []string{"first-use", "growth", "refresh"} {
+					fail := false
+					var sigs []note.Signer
+					var names []string
+					for i, k := range order {
+						s := keys[k].s
+						if i == failing {
+							s = flakySigner{Signer: s, fail: &fail}
+						}
+						sigs = append(sigs, s)
+						names = append(names, keys[k].name)
+					}
+					e := wh.NewEnv(u, wh.Config{Store: store, Logs: []wh.LogCfg{la}, CustomSigners: sigs})
+					mk := func(old, n int) wh.Req {
+						cp, meta := gen.Get(la, u.Main, n, "plain")
+						return wh.Req{LogID: la.ID(), Old: uint64(old), CP: cp, Proof: u.Main.Proof(old, n), Meta: meta}
+					}
+					r := mk(0, 3)
+					if step != "first-use" {
+						if out := e.Do(mk(0, 3)); out.Class != wh.OK {
+							e.Close()
+							continue
+						}
+						r = mk(3, 5)
+						if step == "refresh" {
+							r = mk(3, 3)
+						}
+					}
+					before := e.Snap()
+					fail = true
+					out := e.Do(r)
+					fail = false
+					run.Add("signer_fault_cases", 1)
+					rep := map[string]any{"kind": "signer-fault", "store": store, "keys": names, "failing": names[failing], "step": step}
+					sig := fmt.Sprintf("step=%s failing-key-position=%d-of-%d", step, failing+1, len(order))
+					if out.Err != nil {
+						if !e.Snap().Equal(before) {
+							run.Report("signer-fault refused-but-state-changed "+sig, fmt.Sprintf("%s store, witness keys %v, key %s failing for this call: the %s was refused (%v) but the stored state changed", store, names, names[failing], step, out.Err), rep)
+						}
+					} else {
+						got, _ := e.W.GetCheckpoint(la.ID())
+						for _, b := range [][]byte{out.Bytes, got} {
+							text, lines, ok := uni.SplitNote(b)
+							for _, k := range order {
+								if l, v := countValid(keys[k].v, text, lines); !ok || l != 1 || v != 1 {
+									run.Report("signer-fault accepted-without-a-key's-signature "+sig, fmt.Sprintf("%s store, witness keys %v, key %s failing for this call: the %s was ACCEPTED, but the result / the following read carries %d lines (%d valid) of key %s, want exactly one valid", store, names, names[failing], step, l, v, keys[k].name), rep)
+								}
+							}
+						}
+					}
+					e.Close()
+				}
+			}
+		}
+	}
+}
